@@ -265,6 +265,9 @@ def selftest(ctx):
 
 
 def run(ctx):
+    from spverif.ref import enums as _enums
+    if ctx.shard[0] == 0:
+        _enums.check(ctx, "code_tables", ['spacepackets.cfdp.defs.PduType', 'spacepackets.cfdp.defs.Direction', 'spacepackets.cfdp.defs.TransmissionMode', 'spacepackets.cfdp.defs.CrcFlag', 'spacepackets.cfdp.defs.LargeFileFlag', 'spacepackets.cfdp.defs.SegmentMetadataFlag', 'spacepackets.cfdp.defs.SegmentationControl'])
     from spverif.san import scribble
     scribble.install()
     r = ctx.rng
